@@ -489,3 +489,22 @@ Definition line_end (t : str) : bool := str_eqb t [NL] || str_eqb t [CR; NL].
 Definition MMDF_DELIM : str := [1; 1; 1; 1; 10].
 Definition mmdf_concat (msgs : list bmsg) : str :=
   List.concat (map (fun m => MMDF_DELIM ++ fst m ++ LF ++ snd m ++ LF ++ MMDF_DELIM) msgs).
+
+(* ================================================================== _read_eml_format: attachment data *)
+(* attachment.get("payload"): a str, bytes, or missing/None;  `payload or b""` *)
+Inductive mp_payload := PStr (t : str) | PBytes (b : str) | PNone.
+Section EmlPayload.
+  Variable b64decode : str -> str.            (* base64.b64decode on the text / bytes it is given *)
+  Variable utf8_encode_ignore : str -> str.   (* str.encode("utf-8", errors="ignore") *)
+  Definition eml_attachment_data (binary : bool) (p : mp_payload) : str :=
+    let empty := if binary then b64decode [] else [] in
+    match p with
+    | PNone => empty
+    | PStr t => if C03.Lib.nonempty t then (if binary then b64decode t else utf8_encode_ignore t) else empty
+    | PBytes b => if C03.Lib.nonempty b then (if binary then b64decode b else b) else empty
+    end.
+End EmlPayload.
+
+(* single-part body of get_body_content: the payload decoded with the declared charset, UTF-8 otherwise *)
+Definition payload_text (decode : str -> str -> dres) (utf8_replace : str -> str) (payload : str) (charset : option str) : str :=
+  if C03.Lib.nonempty payload then decode_fallback decode utf8_replace payload charset else [].
